@@ -15,6 +15,7 @@ import Driver.Conn
 import Driver.Life
 import Driver.Limits
 import Driver.FailProp
+import Driver.Cancel
 
 structure DState where
   sess : Amqp.Session.St := Amqp.Session.init 0 0 0
@@ -74,6 +75,7 @@ def handle (st : DState) (line : String) : DState × String :=
     | none => (st, "bad-op")
   | "L" :: ws => (st, (Driver.Life.linkCall ws).getD "bad-op")
   | "P" :: ws => (st, (Driver.FailProp.step ws).getD "bad-op")
+  | "Q" :: ws => (st, (Driver.Cancel.step ws).getD "bad-op")
   | "N" :: ws =>
     match Driver.Limits.step st.limits ws with
     | some (s, out) => ({ st with limits := s }, out)
